@@ -278,6 +278,21 @@ func runC07(c *Ctx) {
 			continue
 		}
 		s.Do(c, EOp{Kind: "obs", Args: []string{"pol", "p", "p"}})
+		// forests (every subject has at most one parent, no cycle): the rule of a subject precedes the rule of
+		// the subject it inherits from, whatever the model says
+		if isForest(pick(allEdges, idx), parents) && strings.HasPrefix(obs, "ok") {
+			listed, _ := s.E.GetPolicy()
+			pos := map[string]int{}
+			for i, r := range listed {
+				pos[r[0]] = i
+			}
+			for _, e := range pick(allEdges, idx) {
+				if pos[e[0]] > pos[e[1]] {
+					c.Direct("after a load under the subject-priority effect the rule of a subject comes after the rule of the subject it inherits from", fmt.Sprintf("%s\nlisted: %v (edge %s -> %s)", text, listed, e[0], e[1]))
+				}
+			}
+			c.Count("subject_forest_order_checks", 1)
+		}
 		s.Do(c, EOp{Kind: "buildlinks"}) // (a no-op with auto-build on; with it off the links are built now)
 		for _, nm := range names {
 			s.Do(c, EOp{Kind: "enf", Req: []V{VS(nm), VS("data1"), VS("read")}})
@@ -287,4 +302,30 @@ func runC07(c *Ctx) {
 			c.Nontrivial("subject|" + text)
 		}
 	}
+}
+
+// isForest: no self loop, at most one parent per name, no cycle
+func isForest(edges [][]string, parents map[string]int) bool {
+	up := map[string]string{}
+	for _, e := range edges {
+		if e[0] == e[1] || parents[e[0]] > 1 {
+			return false
+		}
+		up[e[0]] = e[1]
+	}
+	for n := range up {
+		x, steps := n, 0
+		for {
+			nx, ok := up[x]
+			if !ok {
+				break
+			}
+			x = nx
+			steps++
+			if steps > len(edges) {
+				return false
+			}
+		}
+	}
+	return true
 }
